@@ -45,6 +45,9 @@ ASYMS = {
     # special values: coordinates that LOOK like rounded thirds / sixths / twelfths (0.3333, 0.6667, 0.1667, 0.8333, 0.0833) and exactly
     # representable ones (0.5, 0.25, 0.125, 0.75): they are what they are, four decimals or not
     "rounded_fractions": (["C", "O", "N", "S"], ["C1", "O1", "N1", "S1"], [[0.3333, 0.1234, 0.6667], [0.1667, 0.8333, 0.4121], [0.9131, 0.333333, 0.0833], [0.5, 0.25, 0.125]], None),
+    # a medium-sized asymmetric unit (70 sites, seven elements): every writer / reader handles row 33, 64, 65 ... like row 1
+    "seventy": ([("C", "N", "O", "H", "S", "Cl", "Fe")[i % 7] for i in range(70)], ["%s%d" % (("C", "N", "O", "H", "S", "Cl", "Fe")[i % 7], i + 1) for i in range(70)],
+                [[round((0.5 + (i + 1) * 0.8191725134) % 1.0, 5), round((0.5 + (i + 1) * 0.6710436067) % 1.0, 5), round((0.5 + (i + 1) * 0.5497004779) % 1.0, 5)] for i in range(70)], None),
     "precise": (["C", "N"], ["C1", "N1"], [[0.123456789012, 0.987654321098, 0.555555555555], [1 / 3, 2 / 7, 0.1 + 1e-12]], None),
 }
 
@@ -75,6 +78,8 @@ def variants(row, tier):
         [("file",)],
         [(2,)],
     ]
+    if len(row["symops"]) <= 24:
+        axes[1].append(("seventy",))
     for ai, alts in enumerate(axes):
         for alt in alts:
             v = list(d)
